@@ -266,10 +266,10 @@ def h_sweep_chain3(ctx, n, k):
     ctx.claim('argument_untouched', all(bool(ctx.all_eq(Y[j], Y0[j])) for j in range(d)))
 
 
-def h_sweep_stab_quasi(ctx, d, n, k, neg=False):
+def h_sweep_stab_quasi(ctx, d, n, k, neg=False, flag='True'):
     """Stabilised complete sweep: input = 2^p * Z (see also C16)."""
     from harness.c16 import h_orth_stab_quasi
-    h_orth_stab_quasi(ctx, d, n, k, neg)
+    h_orth_stab_quasi(ctx, d, n, k, neg, flag)
 
 
 def h_concrete_scales(ctx):
@@ -367,6 +367,9 @@ def instances(tier):
             if k in (0, d - 1):
                 # pivot core without a positive entry
                 out.append({'func': 'h_sweep_stab_quasi', 'params': {'d': d, 'n': n, 'k': k, 'neg': True},
+                            'opts': {'symbolic_signs': False}})
+                # the stabilisation switch as a truthy value that is not the literal True
+                out.append({'func': 'h_sweep_stab_quasi', 'params': {'d': d, 'n': n, 'k': k, 'flag': 'np.bool_' if k else 'cmp'},
                             'opts': {'symbolic_signs': False}})
     for (n1, n2, r) in [(2, 2, 2), (2, 3, 2), (3, 2, 3)]:
         for k in (0, 1):
